@@ -100,6 +100,9 @@ def expr(v):
         return f"Unorderable({v[1]})"
     if t == "np":
         return f"NP({v[1]!r})"
+    if t == "raw":
+        # a value given by its source text (vocabulary of simlib), for shapes the generator has no node type for
+        return v[1]
     if t == "subc":
         # instance of a subclass of a builtin container (v[2]: Tags(set) / FTags(frozenset)) built from the plain container v[1]
         return f"{v[2]}({expr(v[1])})"
